@@ -9,6 +9,7 @@ import Penguin.Model.Link
 import Penguin.Model.Mux
 import Penguin.Lemmas.Link
 import Penguin.Lemmas.MuxStep
+import Penguin.Lemmas.PairCor
 
 namespace Penguin.C04
 open Penguin Penguin.Link
@@ -64,6 +65,30 @@ theorem full_datagram_queue_drops (e : EP) (fid port : Nat) (host d : Bytes) (ig
     (hm : e.muxAlive = true) (hfull : ¬ e.dgramq.length < e.opts.dgramCap) :
     processFrame e (.datagram fid port host d) ig = (e, [], none) := by
   simp [processFrame, hm, hfull]
+
+open Penguin.Mux Penguin.Pair in
+/-- No stall, for two whole endpoint models joined by FIFO wires (`Penguin.Pair`: every interleaving,
+    every pair of options, any number of concurrent flows): in every reachable state, on every flow
+    established on both endpoints, a writer at `a` that has no credit always has a `Push` of the flow in
+    transit, a frame in the peer's receive queue, or an `Acknowledge` of the flow in transit back — so a
+    transmission, a frame processing step or a read is enabled, each of which decreases `blocked_measure`. -/
+theorem pair_no_stall {oa ob : Opts} {ra rb : List Nat} (c : Cfg oa ob ra rb) (as : List (Pair.Side × Pair.Act))
+    {x i j : Nat} (e : Established (Pair.run (Pair.init oa ob ra rb) as) x i j)
+    (oA : Obj) (hoA : (Pair.run (Pair.init oa ob ra rb) as).a.objs[i]? = some oA) (hc : oA.credit = 0) :
+    let p := Pair.run (Pair.init oa ob ra rb) as
+    pushesOf x (pathAB p) ≠ [] ∨ (∃ oB, p.b.objs[j]? = some oB ∧ oB.rxq ≠ []) ∨ acksOf x (pathBA p) ≠ [] :=
+  established_blocked_has_work (reach_inv c as) e oA hoA hc
+
+/-! Non-vacuity of `pair_no_stall`: window 1, one write in flight — the writer has no credit and the
+    `Push` is in transit. -/
+private def pcfg1 : Mux.Opts := { rwnd := 1, threshold := 1 }
+private def pacts1 : List (Pair.Side × Pair.Act) :=
+  [(.A, .open 1 [104] 80), (.A, .xmit), (.B, .recv), (.B, .xmit), (.A, .recv), (.A, .runDone), (.B, .accept),
+   (.A, .write 0 [1, 2, 3]), (.A, .xmit)]
+example : Pair.Established (Pair.run (Pair.init pcfg1 pcfg1 [7, 8] [9, 10]) pacts1) 7 0 0 :=
+  ⟨by decide, by decide, by decide, by decide⟩
+example : ((Pair.run (Pair.init pcfg1 pcfg1 [7, 8] [9, 10]) pacts1).a.objs[0]?.map (·.credit)) = some 0 := by decide
+example : Pair.pushesOf 7 (Pair.pathAB (Pair.run (Pair.init pcfg1 pcfg1 [7, 8] [9, 10]) pacts1)) = [[1, 2, 3]] := by decide
 
 /-! Non-vacuity: the configuration that stalled before the threshold fix (own window 4, default
     threshold 8, peer window 16) now gets threshold 4 and is covered by `no_stall`. -/
